@@ -578,6 +578,16 @@ func (e *Engine) registerIntrinsics() {
 			panic(inconclusive("mapstructure.Decode: unsupported shapes %v -> %v", inp.T, outp.T))
 		}
 		dst := outp.V.(*Value)
+		// a pointer to a struct is dereferenced (mapstructure does the same)
+		if ipt, ok := inp.T.Underlying().(*types.Pointer); ok {
+			if _, isSt := ipt.Elem().Underlying().(*types.Struct); isSt {
+				ip, _ := inp.V.(*Value)
+				if ip == nil {
+					panic(inconclusive("mapstructure.Decode: nil struct pointer input"))
+				}
+				inp = Iface{T: ipt.Elem(), V: *ip}
+			}
+		}
 		tagName := func(st *types.Struct, i int) string {
 			f := st.Field(i)
 			if !f.Exported() {
